@@ -153,6 +153,21 @@ def main():
         parts = q.partitions(tier, seed)
         for p in parts:
             jobs.append((q, p))
+    if tier == "thorough" and jobs:
+        # The thorough products over-subscribe the budget: give every query its share (round-robin over the queries) and let
+        # the seed decide which partitions of a query come first, so that repeated runs explore different parts.
+        import random
+        rnd = random.Random(seed)
+        per_query = {}
+        for q, p in jobs:
+            per_query.setdefault(q.name, []).append((q, p))
+        for lst in per_query.values():
+            rnd.shuffle(lst)
+        jobs = []
+        while any(per_query.values()):
+            for lst in per_query.values():
+                if lst:
+                    jobs.append(lst.pop(0))
     results = []
     running = []
     pending = list(jobs)
